@@ -213,6 +213,8 @@ func main() {
 	defer refWk.close()
 	refs := &refCache{wk: refWk, m: map[string]refVal{}}
 	reported := map[string]bool{}
+	groups := map[string][]vlib.Failure{}
+	var groupOrder []string
 	unstable := 0
 	for i, h := range hs {
 		out := outs[i]
@@ -256,11 +258,30 @@ func main() {
 			if h.Fam == "random" {
 				h2 = shrink(refWk, refs, h, f.name)
 			}
-			c.Fail(signature(f.name, h2), f.desc, h2)
+			g := f.name + ":" + h.Kind + ":" + causeOf(h.Class)
+			if _, ok := groups[g]; !ok {
+				groupOrder = append(groupOrder, g)
+			}
+			groups[g] = append(groups[g], vlib.Failure{Signature: signature(f.name, h2), Desc: f.desc, Replay: h2})
 		}
 		c.Case("hist", coqCase(h, out), h)
 		if i%997 == 0 {
 			c.Sample(map[string]interface{}{"history": h, "observed": out.Obs})
+		}
+	}
+	// report round-robin over (oracle, world, kind of cause), so that the first few
+	// violations printed are of different kinds
+	for round := 0; ; round++ {
+		any := false
+		for _, g := range groupOrder {
+			if round < len(groups[g]) {
+				f := groups[g][round]
+				c.Fail(f.Signature, f.Desc, f.Replay)
+				any = true
+			}
+		}
+		if !any {
+			break
 		}
 	}
 	if unstable*50 > len(hs) {
@@ -445,4 +466,20 @@ func noInjected(o fd.Obs) bool {
 		}
 	}
 	return true
+}
+
+// causeOf: a coarse label of what a history's faults are, used only to order the report
+func causeOf(class string) string {
+	has := func(x string) bool { return strings.Contains(class, x) }
+	switch {
+	case has("discfail"):
+		return "discovery"
+	case has("notfound") || has("forbidden"):
+		return "404/403"
+	case has("transport") || has("tcpreset") || has("stallhdr") || has("cancel") || has("reset"):
+		return "failed-request"
+	case has("hookfail"):
+		return "hook"
+	}
+	return "other"
 }
